@@ -1,4 +1,4 @@
-import ScrutModel.Lemmas.UpdateRunReparse
+import ScrutModel.Lemmas.UpdateRunExitFirst
 /-!
 # Concrete documents for the theorems about the integrated model of `scrut update`
 
@@ -82,12 +82,13 @@ theorem noLf_written (isOther : Char → Bool) :
       (by decide) (by decide) judge_A (by rfl)]
   decide
 
-/-! ## W3: an expectation line `> a` behind the exit code line becomes a continuation of the command -/
+/-! ## W3 (repaired by fix cfef990): an expectation line `> a` behind the exit code line stays behind it
+
+Before the fix the passing test `$ x` / `[1]` / `> a` was rewritten to `$ x` / `> a` / `[1]`, whose command is
+`x⏎a` (finding `C10:expectation-read-as-continuation`). -/
 
 /-- ```scrut / $ x / [1] / > a / ``` -/
 def docCont : List Char := ['`', '`', '`', 's', 'c', 'r', 'u', 't', '\n', '$', ' ', 'x', '\n', '[', '1', ']', '\n', '>', ' ', 'a', '\n', '`', '`', '`', '\n']
-/-- what `update` writes: ```scrut / $ x / > a / [1] / ``` -/
-def docContOut : List Char := ['`', '`', '`', 's', 'c', 'r', 'u', 't', '\n', '$', ' ', 'x', '\n', '>', ' ', 'a', '\n', '[', '1', ']', '\n', '`', '`', '`', '\n']
 def utCont : UTest := ⟨⟨cfgMd, [⟨.equal [62, 32, 97], false, false⟩], some 1⟩, ['x'], [['>', ' ', 'a']]⟩
 /-- the command prints `> a` and ends in 1 -/
 def runCont : Ran := ⟨[62, 32, 97, 10], [], 1⟩
@@ -110,26 +111,46 @@ theorem judge_cont : judge utCont.test ([62, 32, 97, 10], []) 1 = some .ok := by
 theorem allPass_cont : AllPass docCont [runCont] :=
   allPass_one docCont utCont runCont ([62, 32, 97, 10], []) docTests_cont (by decide) judge_cont
 
-theorem cont_written (isOther : Char → Bool) :
-    updateDocument isOther docCont [runCont] = .updated docContOut [.ok] := by
+/-- the text of the passing test is its own lines, the exit code line in front of `> a`: nothing is written -/
+theorem cont_kept (isOther : Char → Bool) :
+    updateDocument isOther docCont [runCont] = .unchanged [.ok] := by
   rw [updateDocument_of_docTests _ _ _ _ docTests_cont,
     updateTests_one isOther docCont utCont runCont ([62, 32, 97, 10], []) .ok
-      ['$', ' ', 'x', '\n', '>', ' ', 'a', '\n', '[', '1', ']', '\n']
+      ['$', ' ', 'x', '\n', '[', '1', ']', '\n', '>', ' ', 'a', '\n']
       (by decide) (by decide) judge_cont (by rfl)]
   decide
 
-/-- the commands of the original and of the written document -/
-theorem cont_commands :
-    (parseMarkdown parseEnv docCont).toOption.map (fun p => p.tests.map (·.command)) = some [[['x']]] ∧
-    (parseMarkdown parseEnv docContOut).toOption.map (fun p => p.tests.map (·.command)) = some [[['x'], ['a']]] := by
+/-- ```scrut / $ x / [0] / > a / ```: the exit code line that keeps `> a` apart from the command is written
+also for 0 -/
+def docCont0 : List Char := ['`', '`', '`', 's', 'c', 'r', 'u', 't', '\n', '$', ' ', 'x', '\n', '[', '0', ']', '\n', '>', ' ', 'a', '\n', '`', '`', '`', '\n']
+def utCont0 : UTest := ⟨⟨cfgMd, [⟨.equal [62, 32, 97], false, false⟩], some 0⟩, ['x'], [['>', ' ', 'a']]⟩
+def runCont0 : Ran := ⟨[62, 32, 97, 10], [], 0⟩
+
+theorem docTests_cont0 : docTests docCont0 = some [utCont0] := by rfl
+
+theorem judge_cont0 : judge utCont0.test ([62, 32, 97, 10], []) 0 = some .ok := by
+  have : validateStream utCont0.test.cfg ([62, 32, 97, 10], []) = [62, 32, 97, 10] := by decide
+  unfold judge
+  rw [this, show utCont0.test.exps = utCont.test.exps from rfl, diff_cont]
   decide
 
-/-! ## W2: a command that ends in an empty continuation line `> ` loses it -/
+theorem cont0_kept (isOther : Char → Bool) :
+    updateDocument isOther docCont0 [runCont0] = .unchanged [.ok] := by
+  rw [updateDocument_of_docTests _ _ _ _ docTests_cont0,
+    updateTests_one isOther docCont0 utCont0 runCont0 ([62, 32, 97, 10], []) .ok
+      ['$', ' ', 'x', '\n', '[', '0', ']', '\n', '>', ' ', 'a', '\n']
+      (by decide) (by decide) judge_cont0 (by rfl)]
+  decide
+
+/-! ## W2 (repaired by fix 961e96b): a command that ends in an empty continuation line `> ` keeps it
+
+Before the fix `$ x` / `> ` (the command `x⏎`) was written back as `$ x` (finding
+`C10:trailing-empty-continuation-dropped`). -/
 
 /-- ```scrut / $ x / > / b / ``` (the command is `x⏎`) -/
 def docTrail : List Char := ['`', '`', '`', 's', 'c', 'r', 'u', 't', '\n', '$', ' ', 'x', '\n', '>', ' ', '\n', 'b', '\n', '`', '`', '`', '\n']
-/-- what `update` writes for the output `a`: ```scrut / $ x / a / ``` -/
-def docTrailOut : List Char := ['`', '`', '`', 's', 'c', 'r', 'u', 't', '\n', '$', ' ', 'x', '\n', 'a', '\n', '`', '`', '`', '\n']
+/-- what `update` writes for the output `a`: ```scrut / $ x / > / a / ``` -/
+def docTrailOut : List Char := ['`', '`', '`', 's', 'c', 'r', 'u', 't', '\n', '$', ' ', 'x', '\n', '>', ' ', '\n', 'a', '\n', '`', '`', '`', '\n']
 def utTrail : UTest := ⟨⟨cfgMd, [⟨.equal [98], false, false⟩], none⟩, ['x', '\n'], [['b']]⟩
 
 theorem docTests_trail : docTests docTrail = some [utTrail] := by rfl
@@ -151,13 +172,41 @@ theorem trail_written :
     updateDocument ctrl docTrail [runA] = .updated docTrailOut [.malformed [.unmatched 0, .unexpected [0]]] := by
   rw [updateDocument_of_docTests _ _ _ _ docTests_trail,
     updateTests_one ctrl docTrail utTrail runA ([97, 10], []) (.malformed [.unmatched 0, .unexpected [0]])
-      ['$', ' ', 'x', '\n', 'a', '\n'] (by decide) (by decide) judge_trail (by decide)]
+      ['$', ' ', 'x', '\n', '>', ' ', '\n', 'a', '\n'] (by decide) (by decide) judge_trail (by decide)]
   decide
 
 theorem trail_commands :
     (parseMarkdown parseEnv docTrail).toOption.map (fun p => p.tests.map (·.shellExpression)) = some [['x', '\n']] ∧
-    (parseMarkdown parseEnv docTrailOut).toOption.map (fun p => p.tests.map (·.shellExpression)) = some [['x']] := by
+    (parseMarkdown parseEnv docTrailOut).toOption.map (fun p => p.tests.map (·.shellExpression)) = some [['x', '\n']] := by
   decide
+
+/-! ## W4: a command line that ends in a stray carriage return loses it (U3 as first stated is still false)
+
+The one way left in which `update` changes a command: `str::lines()` strips one carriage return in front of the
+line feed, so the command line `$ x⏎` written for the command `x␍` reads back as `x` (root cause of the open
+findings `C10:stray-carriage-return-dropped` / `C10:not-idempotent-stray-carriage-return`). -/
+
+/-- ```scrut / $ x␍␍ / a / ``` (the command is `x␍`) -/
+def docCrCmd : List Char := ['`', '`', '`', 's', 'c', 'r', 'u', 't', '\n', '$', ' ', 'x', '\r', '\r', '\n', 'a', '\n', '`', '`', '`', '\n']
+/-- what `update` writes: ```scrut / $ x␍ / a / ``` -/
+def docCrCmdOut : List Char := ['`', '`', '`', 's', 'c', 'r', 'u', 't', '\n', '$', ' ', 'x', '\r', '\n', 'a', '\n', '`', '`', '`', '\n']
+def utCrCmd : UTest := ⟨⟨cfgMd, [⟨.equal [97], false, false⟩], none⟩, ['x', '\r'], [['a']]⟩
+
+theorem docTests_crCmd : docTests docCrCmd = some [utCrCmd] := by rfl
+
+theorem crCmd_written (isOther : Char → Bool) :
+    updateDocument isOther docCrCmd [runA] = .updated docCrCmdOut [.ok] := by
+  rw [updateDocument_of_docTests _ _ _ _ docTests_crCmd,
+    updateTests_one isOther docCrCmd utCrCmd runA ([97, 10], []) .ok ['$', ' ', 'x', '\r', '\n', 'a', '\n']
+      (by decide) (by decide) judge_A (by rfl)]
+  decide
+
+theorem crCmd_commands :
+    (parseMarkdown parseEnv docCrCmd).toOption.map (fun p => p.tests.map (·.shellExpression)) = some [['x', '\r']] ∧
+    (parseMarkdown parseEnv docCrCmdOut).toOption.map (fun p => p.tests.map (·.shellExpression)) = some [['x']] := by
+  decide
+
+theorem crCmd_strayCR : ¬ NoStrayCR docCrCmd := by decide
 
 /-! ## an ordinary document: every guard holds -/
 
@@ -201,8 +250,6 @@ theorem ord_written :
 
 theorem ord_noStrayCR : NoStrayCR docOrd := by decide
 theorem ord_frontClosed : FrontClosed docOrd := by decide
-theorem ord_cmdClosed : ∀ t ∈ parsedOrd.tests, CmdClosed t := by decide
-theorem ord_noContLike : ∀ t ∈ parsedOrd.tests, NoContLike t := by decide
 theorem ord_codes : ∀ r ∈ [runNew], 0 ≤ r.code ∧ r.code ≤ 255 := by decide
 
 theorem ord_quantFree : QuantFree docOrd [.malformed [.unmatched 0, .unexpected [0]]] := by
